@@ -402,7 +402,12 @@ func ValidateCondition(column *ColumnSchema, function ConditionFunction, nativeV
 			NativeType(column).String(), nativeValue)
 	}
 
-	switch column.Type {
+	columnType := column.Type
+	if columnType == TypeEnum {
+		// an enum is a scalar of the type of its key
+		columnType = column.TypeObj.Key.Type
+	}
+	switch columnType {
 	case TypeSet, TypeMap, TypeBoolean, TypeString, TypeUUID:
 		switch function {
 		case ConditionEqual, ConditionNotEqual, ConditionIncludes, ConditionExcludes:
